@@ -260,6 +260,14 @@ Theorem C05_and_comm_behaviour A B C C' : set_and A B = Some C -> set_and B A = 
 Proof. exact (and_comm_behaviour A B C C'). Qed.
 Print Assumptions C05_and_comm_behaviour.
 
+(* 7'. what & preserves: the result of & is again a frozenset of constructor-built members without own overrides, on which no operator
+       raises - so C05_and_comm's premise, and the premises under which == sets behave alike (C10), hold for any nesting of & *)
+Theorem C05_and_invariants A B C : set_and A B = Some C ->
+  (fs_ok (ms A) -> fs_ok (ms B) -> fs_ok (ms C)) /\ (wf_set A -> wf_set B -> wf_set C) /\
+  (all_built A -> all_built B -> all_built C) /\ (plain A -> plain B -> plain C).
+Proof. exact (and_invariants A B C). Qed.
+Print Assumptions C05_and_invariants.
+
 (* 9'. a & "text" (set_and_str is what RunSets runs for the &s command): it is a & SpecifierSet("text"), keeps a's override, never raises
        ValueError, raises InvalidSpecifier exactly when the text does not parse, and is literally SpecifierSet(a + "," + text, a's override) *)
 Theorem C05_and_str_is_and A t B : SpecifierSet t None = Some B ->
